@@ -34,8 +34,8 @@ LIB_CLASSES = {
     'DelayedCall': {'cancel', 'active'},
     'LoopingCall': {'start', 'stop'},
     'Transport': {'write', 'abortConnection', 'loseConnection'},
-    'dict': {'get', 'items', 'values', 'keys'},
-    'deque': {'append', 'popleft'},
+    'dict': {'get', 'items', 'values', 'keys', 'pop'},
+    'deque': {'append', 'popleft', 'appendleft', 'pop', 'clear'},
 }
 
 T_ACTIVE, T_CANCELLED, T_CALLED = 0, 1, 2
@@ -703,6 +703,7 @@ def h_deque_append(eng, p, fc, node, self_v, args, kwargs):
         t = z3.Select(harr(q, '$dqt'), self_v.t)
         q.heap['$dq'] = z3.Store(harr(q, '$dq'), self_v.t, t, vs[0].t)
         q.heap['$dqt'] = z3.Store(harr(q, '$dqt'), self_v.t, t + 1)
+        store_value(q, 'q_pos', vs[0].t, VInt(t))      # ghost: the position an element was put at (model state)
         out.append(Res(q, VNone()))
     return out
 
@@ -722,6 +723,74 @@ def h_deque_popleft(eng, p, fc, node, self_v, args, kwargs):
     eng.wf_value(p, r)
     p.heap['$dqh'] = z3.Store(harr(p, '$dqh'), self_v.t, h + 1)
     out.append(Res(p, r))
+    return out
+
+
+def h_deque_appendleft(eng, p, fc, node, self_v, args, kwargs):
+    from .engine import Res
+    out = []
+    for (q, vs) in resolve_all(eng, p, args[:1]):
+        if not isinstance(vs[0], VRef):
+            raise Unsupported('deque of non-references')
+        eng.policy_escape(q, vs[0], 'appended to a deque')
+        eng.deque_len(q, self_v)
+        h = z3.Select(harr(q, '$dqh'), self_v.t)
+        q.heap['$dq'] = z3.Store(harr(q, '$dq'), self_v.t, h - 1, vs[0].t)
+        q.heap['$dqh'] = z3.Store(harr(q, '$dqh'), self_v.t, h - 1)
+        store_value(q, 'q_pos', vs[0].t, VInt(h - 1))
+        out.append(Res(q, VNone()))
+    return out
+
+
+def h_deque_pop(eng, p, fc, node, self_v, args, kwargs):
+    from .engine import Res
+    if args:
+        raise Unsupported('deque.pop with an argument')
+    n = eng.deque_len(p, self_v)
+    out = []
+    empty = n == 0
+    if feasible(p, empty):
+        q = p.fork()
+        q.assume(empty)
+        out.append(eng.raise_(q, 'IndexError', 'pop from an empty deque: ' + eng.src(node)))
+    p.assume(z3.Not(empty))
+    t = z3.Select(harr(p, '$dqt'), self_v.t)
+    r = VRef(z3.Select(harr(p, '$dq'), self_v.t, t - 1))
+    eng.wf_value(p, r)
+    p.heap['$dqt'] = z3.Store(harr(p, '$dqt'), self_v.t, t - 1)
+    out.append(Res(p, r))
+    return out
+
+
+def h_deque_clear(eng, p, fc, node, self_v, args, kwargs):
+    from .engine import Res
+    eng.deque_len(p, self_v)
+    p.heap['$dqh'] = z3.Store(harr(p, '$dqh'), self_v.t, z3.Select(harr(p, '$dqt'), self_v.t))
+    return [Res(p, VNone())]
+
+
+def h_dict_pop(eng, p, fc, node, self_v, args, kwargs):
+    """d.pop(k[, default]): the value and the key removed, KeyError / default when absent"""
+    from .engine import Res
+    eng.policy_key(p, self_v, args[0], node)
+    k = eng.key_term(args[0])
+    eng.dict_facts(p, self_v.t, k)
+    dom = z3.Select(harr(p, '$dom'), self_v.t, k)
+    out = []
+    if feasible(p, z3.Not(dom)):
+        q = p.fork()
+        q.assume(z3.Not(dom))
+        if len(args) > 1:
+            out.append(Res(q, args[1]))
+        else:
+            out.append(eng.raise_(q, 'KeyError', eng.src(node)))
+    if feasible(p, dom):
+        p.assume(dom)
+        r = VRef(z3.Select(harr(p, '$val'), self_v.t, k))
+        eng.wf_value(p, r)
+        p.heap['$card'] = z3.Store(harr(p, '$card'), self_v.t, z3.Select(harr(p, '$card'), self_v.t) - 1)
+        p.heap['$dom'] = z3.Store(harr(p, '$dom'), self_v.t, k, z3.BoolVal(False))
+        out.append(Res(p, r))
     return out
 
 
@@ -764,6 +833,7 @@ HANDLERS = {
     'Transport.write': h_write, 'Transport.abortConnection': counter('tr_aborts'),
     'Transport.loseConnection': counter('tr_closes'),
     'dict': h_dict_new, 'deque': h_deque_new, 'dict.get': h_dict_get, 'dict.items': h_dict_items, 'dict.values': h_dict_values, 'dict.keys': h_dict_keys,
-    'deque.append': h_deque_append, 'deque.popleft': h_deque_popleft,
+    'deque.append': h_deque_append, 'deque.popleft': h_deque_popleft, 'deque.appendleft': h_deque_appendleft,
+    'deque.pop': h_deque_pop, 'deque.clear': h_deque_clear, 'dict.pop': h_dict_pop,
     'VBytes.decode': h_decode,
 }
